@@ -78,6 +78,7 @@ def gen_scenario(rng, *, family='well', cyclic=False, init_env=False,
             'dur': rng.choice((0, 0, 1, 3, 10, 40, 200)),
             'shared': rng.random() < 0.3,
             'echo_status': family == 'echo' and rng.random() < 0.5,
+            'hints': family in ('well', 'echo') and rng.random() < 0.15,
         })
     scn = {
         'kind': 'sched',
@@ -292,6 +293,12 @@ def scripted_update(scn, i, run_tag='r'):
                             'nothing': None, 'zero': 0, 'empty': ''}}}
     if tsk.get('shared'):
         upd['shared-area'] = {'by': {name: leaf(run_tag, i, 'shared')}}
+    if tsk.get('hints'):
+        # a word for the tasks that depend on this one, left in THEIR entries
+        for k, other in enumerate(scn['tasks']):
+            if i in other['hard'] or i in other['soft']:
+                upd[other['name']] = {'hint-from-%d' % i:
+                                      leaf(run_tag, i, 'hint-%d' % k)}
     return upd
 
 
@@ -996,7 +1003,7 @@ def shrink_candidates(scn):
                 new['tasks'][i][key].remove(j)
                 yield new
         for field, plain in (('outcome', 'ok'), ('dur', 0), ('shared', False),
-                             ('echo_status', False),
+                             ('echo_status', False), ('hints', False),
                              ('kind', 'task'), ('variant', 0),
                              ('name', 't%d' % i)):
             if tsk.get(field) != plain:
